@@ -31,7 +31,7 @@ def perm_sign(t, lo):
 
 
 def build(tier, seed):
-    cases = [{'kind': 'eps3'}, {'kind': 'eps4'}, {'kind': 'dirac'}, {'kind': 'tags'}]
+    cases = [{'kind': 'eps3'}, {'kind': 'eps4'}, {'kind': 'dirac'}, {'kind': 'tags'}, {'kind': 'tags-kept'}, {'kind': 'eps-sequence', 'first': 3}, {'kind': 'eps-sequence', 'first': 4}]
     nmax = 6 if tier == 'quick' else 10
     for n in range(0, nmax + 1):
         cases.append({'kind': 'kn', 'n': n, 'npts': 40 if tier == 'quick' else 120})
@@ -244,6 +244,49 @@ def run_case(case):
             except ValueError:
                 acc.ok(('badtag', repr(bad)), True, 'unknown-tag-rejected')
         acc.sample({'kind': 'tags', 'tag': 'SigmaYZ', 'expected': '0.5*[gammaY,gammaZ] from Kronecker construction'})
+    elif k == 'tags-kept':
+        # call history: all named matrices are requested first and kept, then compared - a later call must not change an earlier
+        # result; requested in every cyclic order of the tag list, and twice
+        table = _tag_table()
+        tags = list(table)
+        for shift in range(len(tags)):
+            order = tags[shift:] + tags[:shift]
+            kept = {}
+            try:
+                for tag in order + order[::-1]:
+                    kept.setdefault(tag, []).append(pe.dirac.Grid_gamma(tag))
+            except Exception as e:
+                acc.fail('tags-kept:raised', dict(case, shift=shift), repr(e))
+                continue
+            bad = [tag for tag in tags if not all(np.array_equal(np.asarray(g), table[tag]) for g in kept[tag])]
+            if bad:
+                acc.fail('tags-kept:overwritten', dict(case, shift=shift), 'after requesting all tags in the order starting at %s, the matrices obtained earlier for %s no longer equal the stated products' % (order[0], bad))
+            else:
+                acc.ok(('tags-kept', shift), True, 'tags-kept')
+        acc.sample({'kind': 'tags-kept', 'orders': len(tags)})
+    elif k == 'eps-sequence':
+        # call history between the two tensors: a complete sweep of one rank, then of the other (index sets valid for one rank
+        # only must still be rejected by the other)
+        seq = [3, 4] if case['first'] == 3 else [4, 3]
+        for rep in range(2):
+            for rank in seq:
+                f = pe.dirac.epsilon_tensor if rank == 3 else pe.dirac.epsilon_tensor_rank4
+                doms = [set(range(1, rank + 1)), set(range(0, rank))]
+                nbad = []
+                for t in itertools.product(range(5), repeat=rank):
+                    inside = any(set(t) <= d for d in doms)
+                    try:
+                        got = f(*t)
+                        ok = inside and got == perm_sign(t, 0)
+                    except ValueError:
+                        ok = not inside
+                    if not ok:
+                        nbad.append(t)
+                if nbad:
+                    acc.fail('eps-sequence:rank%d' % rank, dict(case, rank=rank, round=rep), 'rank-%d sweep as part of the sequence %s (round %d): %d wrong tuples, e.g. %s' % (rank, seq, rep + 1, len(nbad), nbad[:4]))
+                else:
+                    acc.ok(('eps-seq', case['first'], rank, rep), True, 'eps-sequence')
+        acc.sample(dict(case, sweeps='rank %s then rank %s, twice' % tuple(seq)))
     elif k == 'kn':
         ss = _sp()
         n = case['n']
